@@ -20,6 +20,7 @@ type Action struct {
 // UpRec is one attempt as seen by an upstream actor.
 type UpRec struct {
 	At     time.Duration
+	MosnAt time.Duration // when MOSN wrote (the first bytes of) it
 	ConnID int
 	Host   string
 	UpID   uint64
@@ -270,7 +271,7 @@ func (u *XUpstream) OnData(c *sim.Conn, b []byte) {
 			continue
 		}
 		att := len(r.Upstream)
-		up := &UpRec{At: u.S.Now(), ConnID: c.ID, Host: u.Host, UpID: f.ID, Att: att, Frame: fr, Parsed: f}
+		up := &UpRec{At: u.S.Now(), MosnAt: c.DeliveringAt, ConnID: c.ID, Host: u.Host, UpID: f.ID, Att: att, Frame: fr, Parsed: f}
 		if len(r.Script) > 0 {
 			if att < len(r.Script) {
 				up.Act = r.Script[att]
